@@ -441,15 +441,20 @@ class ConcWorld(BaseWorld):
         self.subsets = dict(subsets or {})
         self.sizes = dict(sizes or {})
         self.rng = random.Random(seed)
-        self.big = seed % 4 == 3  # every fourth seed explores larger dimensions
-        # every fifth seed uses entries of tiny magnitude (data in a large unit): absolute tolerances hidden in the
-        # code under test show up there; the comparison tolerance of the contracts scales along
-        self.scale = 2.0**-33 if seed % 5 == 4 else 1.0  # (a power of two: scaling stays exact in binary floating point)
-        # every third seed gives all dimensions the same length (a positional mix-up cannot hide behind a shape
-        # error); every seventh seed lets dimensions share items (bare keys become ambiguous)
-        self.square = seed % 3 == 2
+        # awkward modes are chosen by the run index (seed modulo 1000), so that every check runs the same modes
+        # whatever base seed it is given: run 1 of the quick tier is always 'equal sizes + integer driver'
+        k = seed % 1000
+        self.big = k % 4 == 3  # larger dimensions
+        # entries of tiny magnitude (data in a large unit): absolute tolerances hidden in the code under test show
+        # up there; the comparison tolerance of the contracts scales along
+        self.scale = 2.0**-33 if k % 5 == 4 else 1.0  # (a power of two: scaling stays exact in binary floating point)
+        # integer-typed driver arrays for the stock models (nothing may be truncated)
+        self.int_driver = k % 3 == 1
+        # all dimensions of the same length (a positional mix-up cannot hide behind a shape error); dimensions
+        # that share items (bare keys become ambiguous)
+        self.square = k % 2 == 1
         self._square_n = None
-        self.shared_items = seed % 7 == 5
+        self.shared_items = k % 7 == 5
         self._n_dims_made = 0
         self.fill = fill
         self.default_size = default_size
